@@ -74,3 +74,12 @@ Example C08_examples :
   map strip_u (parse (flatten (canon cs))) = map (fun c => (kind c, syl c, dotc c, gqA (garea c))) cs.
 Proof. vm_compute. split; reflexivity. Qed.
 Print Assumptions C08_examples.
+
+(* the model's listing for a three-command file named "t.h" (what `hyeong check` prints, rows only) *)
+Example C08_listing_example :
+  Listing.check_listing [116;46;104] [54805;46;46;32;54637;46;10;32;32;32;54784;50633;46;46;46;9829;63] =
+  Some ([48;32;124;32;116;46;104;58;49;58;48;32;32;54805;95;49;95;50;32;95;10] ++
+        [49;32;124;32;116;46;104;58;49;58;52;32;32;54637;95;49;95;49;32;95;10] ++
+        [50;32;124;32;116;46;104;58;50;58;51;32;32;54805;95;50;95;51;32;91;9829;93;63;91;95;93;10]).
+Proof. vm_compute. reflexivity. Qed.
+Print Assumptions C08_listing_example.
